@@ -28,6 +28,7 @@ type c20Case struct {
 	State string   `json:"state"`           // intact, deleted, shifted, unrepairable, noparity-intact, noparity-damaged, badindex, noindex
 	Cwd   string   `json:"cwd"`             // set, parent, unrelated
 	Limit int      `json:"limit,omitempty"` // the first command runs under a file size limit of this many 512-byte blocks (sh: ulimit -f): writes beyond it fail part-way
+	Base  string   `json:"base,omitempty"`  // class "named": the whole life of a set whose index file is called <Base>.par2 / <Base>.par (see c20RunNamed)
 	Then  []string `json:"then,omitempty"`  // further steps after Cmd on the same directory: v, va, r, rd (commands), del0 / restore (events)
 }
 
@@ -35,6 +36,15 @@ var c20P2Sizes = []int{11, 6}
 var c20P1Sizes = []int{7, 5, 3}
 
 func c20Gen(g *core.Gen) {
+	// index files under other names: dots, a date, a second extension, the name of a recovery file, blanks, a leading dash
+	// is left out (it would be an option)
+	for _, f := range []string{"p2", "p1"} {
+		for _, b := range []string{"backup.2024-05", "movie.mkv", "s.vol00+01", "a.par", "x.par2", "two  blanks", "tr.ailing.", "p01", "UPPER.PAR2"} {
+			for _, cw := range []string{"set", "parent", "unrelated"} {
+				g.Emit(&c20Case{Fmt: f, Class: "named", Base: b, Cwd: cw})
+			}
+		}
+	}
 	states := []string{"intact", "deleted", "shifted", "appended", "shifted+deleted", "unrepairable", "noparity-intact", "noparity-damaged", "noparity-shifted", "oneblock-shifted", "badindex", "noindex",
 		// histories: the set was created before with more recovery blocks (stale but valid volumes remain, blocks exist twice); a volume was copied
 		// files above 16 KiB (first file 17000 bytes): damage beyond the first 16 KiB, with exactly as much recovery data left as needed
@@ -148,11 +158,96 @@ func c20Gen(g *core.Gen) {
 
 var c20Seq int
 
+// c20RunNamed: create, verify, lose a file, verify, repair, verify, lose the recovery data and a file, verify, repair - for
+// an index file whose base name has dots, blanks or looks like a member of a set. The format is chosen by the
+// extension, whatever stands in front of it.
+func c20RunNamed(c *c20Case, bin string, r *core.Rec) {
+	c20Seq++
+	root := filepath.Join(workerScratch(), fmt.Sprintf("c20n-%d", c20Seq))
+	os.RemoveAll(root)
+	defer os.RemoveAll(root)
+	setDir := filepath.Join(root, "parent", "set")
+	os.MkdirAll(setDir, 0755)
+	ext := map[string]string{"p2": ".par2", "p1": ".par"}[c.Fmt]
+	var datas [][]byte
+	for i, n := range []int{11, 6, 9} {
+		d := scen.Content("uniq", r.Seed, i, n, 4)
+		datas = append(datas, d)
+		ioutil.WriteFile(filepath.Join(setDir, fmt.Sprintf("f%d", i)), d, 0644)
+	}
+	cwd, idx, pre := setDir, c.Base+ext, ""
+	switch c.Cwd {
+	case "parent":
+		cwd, idx, pre = filepath.Dir(setDir), filepath.Join("set", c.Base+ext), "set/"
+	case "unrelated":
+		cwd, idx, pre = root, filepath.Join(setDir, c.Base+ext), setDir+"/"
+	}
+	run := func(args ...string) (int, string) {
+		cmd := exec.Command(bin, args...)
+		cmd.Dir = cwd
+		var outb bytes.Buffer
+		cmd.Stdout, cmd.Stderr = &outb, &outb
+		err := cmd.Run()
+		r.AddTransitions(1)
+		if ee, ok := err.(*exec.ExitError); ok {
+			return ee.ExitCode(), outb.String()
+		} else if err != nil {
+			return -1, err.Error()
+		}
+		return 0, outb.String()
+	}
+	expect := func(step string, want int, args ...string) bool {
+		code, out := run(args...)
+		if strings.Contains(out, "goroutine ") && strings.Contains(out, "panic") {
+			r.Violatef("par-panicked", "index %q, %s: %s", c.Base+ext, step, out)
+			return false
+		}
+		if code != want {
+			r.Violatef("exit-status-wrong-for-named-index", "index %q (cwd %s), %s: par %v exited %d, want %d\n%s", c.Base+ext, c.Cwd, step, args, code, want, out)
+			return false
+		}
+		return true
+	}
+	cargs := []string{"c", "-s", "4", "-c", "3", idx, pre + "f0", pre + "f1", pre + "f2"}
+	if c.Fmt == "p1" {
+		cargs = []string{"c", "-c", "2", idx, pre + "f0", pre + "f1", pre + "f2"}
+	}
+	if !expect("create", 0, cargs...) || !expect("verify after create", 0, "v", idx) {
+		return
+	}
+	os.Remove(filepath.Join(setDir, "f1"))
+	if !expect("verify with one file lost", 1, "v", idx) || !expect("repair", 0, "r", idx) || !expect("verify after repair", 0, "v", idx) {
+		return
+	}
+	if b, _ := ioutil.ReadFile(filepath.Join(setDir, "f1")); !bytes.Equal(b, datas[1]) {
+		r.Violatef("repair-exit-0-but-file-not-restored", "index %q: f1 differs after repair", c.Base+ext)
+		return
+	}
+	// every file of the set except the index and the data files goes; then a data file
+	ents, _ := ioutil.ReadDir(setDir)
+	for _, e := range ents {
+		if n := e.Name(); n != c.Base+ext && n != "f0" && n != "f1" && n != "f2" {
+			os.Remove(filepath.Join(setDir, n))
+		}
+	}
+	os.Remove(filepath.Join(setDir, "f0"))
+	if !expect("verify without recovery data, one file lost", 2, "v", idx) || !expect("repair without recovery data", 2, "r", idx) {
+		return
+	}
+	r.AddStates(8)
+	r.Outcome("named " + c.Fmt)
+	r.NontrivialCase()
+}
+
 func c20Run(ci interface{}, r *core.Rec) {
 	c := ci.(*c20Case)
 	bin := os.Getenv("VERIF_PAR_BIN")
 	if bin == "" {
 		r.Violate("harness:no-par-binary", "VERIF_PAR_BIN not set")
+		return
+	}
+	if c.Class == "named" {
+		c20RunNamed(c, bin, r)
 		return
 	}
 	c20Seq++
@@ -681,7 +776,7 @@ func init() {
 	core.Register(&core.Prop{
 		ID:    "C20",
 		Level: "model_checking",
-		Rule: "full product through the built par binary: {PAR1, PAR2} x {verify, v, VERIFY, -g 2 verify, verify -a; repair, r, Repair, repair -doublecheck, -g 3 r -doublecheck=true} x archive state {intact, repairable by deletion, by shift/change, by removing appended bytes, shift+deletion, unrepairable, no parity (data intact / file deleted / file only shifted), one block left + shift, damaged index, missing index, (PAR1) a zero-length protected file intact / deleted / overwritten / deleted together with all volumes, a 17000-byte first file intact / damaged beyond or within its first 16 KiB with exactly one recovery block (volume) left or with all} x invocation directory {set directory with relative paths, parent with relative paths, unrelated with absolute paths}; command histories: a first verify / repair followed by every sequence of 2 (thorough 3) further steps from {verify, verify -a, repair, repair -doublecheck, delete a file, restore all files} from 5 starting states, every command judged against the byte truth at that moment; create variants (incl. option values at and beyond their limits - slice size 0 / 6 / negative / 2^20, block count 0 / -1 / 255 / 256 / 32768 / 65534 / 65535 / 65536, goroutines 0 / negative / 100000, an input listed twice, the index as its own input, no input, inputs whose names look like members of the set (s.pdf, s.par2.txt, s.vol-notes): there only 'exit 0 => complete valid set' is judged -; missing input, missing directory, an output path blocked by a directory: index, first and last recovery file; a Create cut short by a file size limit of 1..40 blocks, then repeated without the limit, then verify / delete a file + repair + verify), 11 usage-error command lines plus 29 near-command words (the empty word, blanks, proper prefixes, one letter too many, padded with blanks), unknown extensions. " +
+		Rule: "(plus the whole life of sets whose index file has one of 9 other base names - dots, a date, a second extension, named like a recovery file - from three working directories: create, verify, lose a file, verify, repair, verify, lose the recovery data, verify, repair) full product through the built par binary: {PAR1, PAR2} x {verify, v, VERIFY, -g 2 verify, verify -a; repair, r, Repair, repair -doublecheck, -g 3 r -doublecheck=true} x archive state {intact, repairable by deletion, by shift/change, by removing appended bytes, shift+deletion, unrepairable, no parity (data intact / file deleted / file only shifted), one block left + shift, damaged index, missing index, (PAR1) a zero-length protected file intact / deleted / overwritten / deleted together with all volumes, a 17000-byte first file intact / damaged beyond or within its first 16 KiB with exactly one recovery block (volume) left or with all} x invocation directory {set directory with relative paths, parent with relative paths, unrelated with absolute paths}; command histories: a first verify / repair followed by every sequence of 2 (thorough 3) further steps from {verify, verify -a, repair, repair -doublecheck, delete a file, restore all files} from 5 starting states, every command judged against the byte truth at that moment; create variants (incl. option values at and beyond their limits - slice size 0 / 6 / negative / 2^20, block count 0 / -1 / 255 / 256 / 32768 / 65534 / 65535 / 65536, goroutines 0 / negative / 100000, an input listed twice, the index as its own input, no input, inputs whose names look like members of the set (s.pdf, s.par2.txt, s.vol-notes): there only 'exit 0 => complete valid set' is judged -; missing input, missing directory, an output path blocked by a directory: index, first and last recovery file; a Create cut short by a file size limit of 1..40 blocks, then repeated without the limit, then verify / delete a file + repair + verify), 11 usage-error command lines plus 29 near-command words (the empty word, blanks, proper prefixes, one letter too many, padded with blanks), unknown extensions. " +
 			"Oracle (one-directional, as stated): exit 0 => full success by byte truth / library re-verification (for create also: taking any one input away makes the new set need repair); verify needed&possible => 1, needed&impossible => 2; repair needed&impossible => 2, possible => 0 and files restored; usage => 3; other failures => neither 0 nor 3; no Go panic; files created relative to the invocation directory. non-trivial = verify/repair/create runs",
 		Assumptions: []string{"'needed' = some protected file not byte-identical; 'possible' = reference count of unfindable slices (unusable files) <= intact recovery blocks (volumes) present"},
 		NewCase:     func() interface{} { return &c20Case{} },
